@@ -4,6 +4,12 @@
    "continue") and the outcome of ONE call of a fresh real parser on exactly the same bytes.
    Alarming: the two outcomes (status / error code, value, end position from the start) must be
    equal - C03 is a relation between two runs of the implementation.
+   "stream" events: several documents in one buffer parsed by ONE parser resumed at the reported
+   end position (no reset), the buffer ending with the terminating NUL, chunked against unchunked:
+   when the unchunked loop sees a clean stream (Tokener!StreamClean) the chunked loop yields the same
+   statuses, values and error positions (Tokener!StreamNorm), and for generated streams of valid
+   documents in a mode that tolerates trailing bytes, document i of the stream yields the value a
+   fresh parser gives for document i alone.
    Informational (MECH lines, never a mismatch): the Tokener module's prediction for the chunked
    run, folded over the chunks, agrees with the recorded outcome. *)
 EXTENDS Naturals, Integers, Sequences, TLC, Json, IOUtils
@@ -22,8 +28,19 @@ RunChunks(tok, text, cuts, k, base) ==
 Predict(r) == LET x == RunChunks(TK!Fresh(r.depth, FlagsOf(r.fl)), r.text, r.cuts, 1, 0)
               IN [st |-> x.tok.err, val |-> x.tok.ret, end |-> x.base + x.tok.off]
 MechAgrees(r) == Predict(r) = r.got
+StreamMech(r) == TK!Stream(TK!Fresh(r.depth, FlagsOf(r.fl)), r.text, r.cuts) = r.got
+\* the recorded outcome lists in the shape of Tokener!Stream's ([st, val, end])
+AllOk(a, i) == \A j \in 1..i : a[j].st = "success"
+StreamOk(r) ==
+    \* (a chunked run that stopped early on an error was given only r.given bytes: the single-document relation covers it)
+    /\ (r.given = Len(r.text) /\ TK!StreamClean(r.ref, Len(r.text))) => TK!StreamNorm(r.got) = TK!StreamNorm(r.ref)
+    /\ (r.clean /\ Len(r.alone) > 0 /\ r.fl \in {0, 2, 3}) =>
+          /\ AllOk(r.alone, Len(r.alone)) => (Len(r.ref) = Len(r.alone) + 1 /\ TK!StreamClean(r.ref, Len(r.text)))
+          /\ \A i \in 1..Len(r.alone) : AllOk(r.alone, i) =>
+                 (Len(r.ref) >= i /\ r.ref[i].st = "success" /\ r.ref[i].val = r.alone[i].val /\ r.ref[i].end >= r.alone[i].end)
 StepOfImpl(s, r) ==
-    [ok |-> r.ref = r.got /\ (MechAgrees(r) \/ PrintT(<<"MECH", l>>)), st |-> s]
+    IF r.e = "stream" THEN [ok |-> StreamOk(r) /\ (StreamMech(r) \/ PrintT(<<"MECH", l>>)), st |-> s]
+    ELSE [ok |-> r.ref = r.got /\ (MechAgrees(r) \/ PrintT(<<"MECH", l>>)), st |-> s]
 TraceLog == ndJsonDeserialize(IOEnv.TRACE)
 T == INSTANCE TraceBase WITH Log <- TraceLog, InitSt <- 0, StepOf <- StepOfImpl, ResyncAtNew <- FALSE
 Spec == T!Spec
